@@ -9,10 +9,10 @@ namespace CtyModel
 namespace D12b
 open Fn Stdlib C12L Cov
 
-/-- what `coalesce` needs of `convert.Convert`: converting a weakening (same type, known at the top) of a
-value succeeds when converting the value does, to a result of the same type that admits the concrete one -/
+/-- what `coalesce` / `lookup` need of `convert.Convert`: converting a weakening (same type) of a value
+succeeds when converting the value does, to a result of the same type that admits the concrete one -/
 def EnvConvertSound (E : Env) : Prop :=
-  ∀ o w t r, CoversX w o = true → w.ty = o.ty → w.isKnown = true → E.convert o t = .ok r →
+  ∀ o w t r, CoversX w o = true → w.ty = o.ty → E.convert o t = .ok r →
     ∃ r', E.convert w t = .ok r' ∧ r'.ty = r.ty ∧ Covers r' r = true
 
 /-- every weakened argument has the type of the argument it weakens -/
@@ -69,7 +69,7 @@ theorem coalesceLoop_sound (E : Env) (hE : EnvConvertSound E) (rt : Ty) (r : Val
             subst h
             exact ⟨w, rfl, coversX_covers hc.1, Or.inr hk.1⟩
           · simp only [heq, Bool.false_eq_true, if_false] at h ⊢
-            obtain ⟨r', h1, h2, h3⟩ := hE o w rt r hc.1 hk.1 hwk h
+            obtain ⟨r', h1, h2, h3⟩ := hE o w rt r hc.1 hk.1 h
             exact ⟨r', h1, h3, Or.inr h2⟩
       · rw [hok] at hok'; exact absurd rfl hok'
     · simp only [hwk, Bool.not_false, if_true]
